@@ -10,6 +10,8 @@ def realHF : HashFn Bytes Bytes where
 
 structure St where
   hashes : List Bytes := []
+  /-- remove log of the Vec backend -/
+  removed : List Nat := []
 
 def showPairs (l : List (Nat × Nat)) : String :=
   "[" ++ ",".intercalate (l.map fun p => s!"{p.1}:{p.2}") ++ "]"
@@ -63,10 +65,10 @@ def handle (st : St) (args : List String) (impl : String) : St × Verdict :=
   | ["leafiter", p] => match nat? p with
     | some p => (st, cmpSpec (showNatList (bintreeLeafPosIter p)) impl)
     | none => (st, .unknown)
-  | ["new"] => ({ hashes := [] }, .ok)
+  | ["new"] => ({ hashes := [], removed := [] }, .ok)
   | ["push", e] => match parseHex e with
     | some e => match push realHF st.hashes e with
-      | some hs => ({ hashes := hs }, cmpSpec s!"{hs.length} {showRoot (root realHF hs)}" impl)
+      | some hs => ({ st with hashes := hs }, cmpSpec s!"{hs.length} {showRoot (root realHF hs)}" impl)
       | none => (st, cmpSpec "err" impl)
     | none => (st, .unknown)
   | ["root"] => (st, cmpSpec (showRoot (root realHF st.hashes)) impl)
@@ -82,6 +84,32 @@ def handle (st : St) (args : List String) (impl : String) : St × Verdict :=
     | some rt, some sz, some path, some e, some p =>
       (st, cmpSpec (showBool (verify realHF rt sz path e p)) impl)
     | _, _, _, _, _ => (st, .unknown)
+  -- views at a size over the backend with its remove log (sizes beyond the backend are not modelled)
+  | ["vroot", s] => match nat? s with
+    | some s => if s ≤ st.hashes.length then
+        (st, cmpSpec (showRoot (vRoot realHF ⟨st.hashes, st.removed⟩ s)) impl) else (st, .unknown)
+    | none => (st, .unknown)
+  | ["vpeaks", s] => match nat? s with
+    | some s => if s ≤ st.hashes.length then
+        (st, cmpSpec (showHexList (vPeaks ⟨st.hashes, st.removed⟩ s)) impl) else (st, .unknown)
+    | none => (st, .unknown)
+  | ["vproof", s, p] => match nat? s, nat? p with
+    | some s, some p => if s ≤ st.hashes.length then
+        match vProof realHF ⟨st.hashes, st.removed⟩ s p with
+        | some (sz, path) => (st, cmpSpec s!"{sz} {showHexList path}" impl)
+        | none => (st, cmpSpec "err" impl)
+      else (st, .unknown)
+    | _, _ => (st, .unknown)
+  | ["prune", s, p] => match nat? s, nat? p with
+    | some s, some p => if s ≤ st.hashes.length then
+        match prune ⟨st.hashes, st.removed⟩ s p with
+        | some (r, b) => ({ st with removed := b.removed }, cmpSpec (showBool r) impl)
+        | none => (st, cmpSpec "err" impl)
+      else (st, .unknown)
+    | _, _ => (st, .unknown)
+  | ["rewind", p] => match nat? p with
+    | some p => (st, cmpSpec (toString (rewindView p)) impl)
+    | none => (st, .unknown)
   | _ => (st, .unknown)
 
 end GV.Drv.PmmrD
